@@ -121,3 +121,43 @@ def truthiness_tests(test):
             out.append((unparse(e), pol, e))
     rec(test, True)
     return out
+
+
+def atoms_of(test, pol, norm_fn=None):
+    """[(text, polarity)] canonical atoms necessarily true/false when `test` evaluates to `pol`:
+    and/or/not are decomposed, `is not` / `not in` / `!=` are turned into their positive form with flipped polarity."""
+    nf = norm_fn or unparse
+    out = []
+    if isinstance(test, ast.BoolOp):
+        if isinstance(test.op, ast.And) and pol:
+            for v in test.values:
+                out += atoms_of(v, True, nf)
+        elif isinstance(test.op, ast.Or) and not pol:
+            for v in test.values:
+                out += atoms_of(v, False, nf)
+        else:
+            out.append((nf(test), pol))
+        return out
+    if isinstance(test, ast.UnaryOp) and isinstance(test.op, ast.Not):
+        return atoms_of(test.operand, not pol, nf)
+    if isinstance(test, ast.Compare) and len(test.ops) == 1:
+        flip = {ast.IsNot: ast.Is, ast.NotIn: ast.In, ast.NotEq: ast.Eq}.get(type(test.ops[0]))
+        if flip is not None:
+            return [(nf(ast.Compare(left=test.left, ops=[flip()], comparators=test.comparators)), not pol)]
+    return [(nf(test), pol)]
+
+
+def atoms_at(g, node, norm_fn=None):
+    """canonical atoms known to hold whenever CFG node `node` executes (from the dominating branch edges).
+    returns a list of (text, polarity, branch_node)."""
+    out = []
+    for test, pol, br in g.dominating_conditions(node):
+        if pol not in ("true", "false"):
+            continue
+        for t, p in atoms_of(test, pol == "true", norm_fn):
+            out.append((t, p, br))
+    return out
+
+
+def has_atom(atoms, text, pol):
+    return any(t == text and p == pol for t, p, _ in atoms)
